@@ -8,7 +8,7 @@ from . import lincommon as lc
 
 PROP = "C19"
 HOSTILE = ('scale', 'mean', 'special')
-MONITORS = ("WF",)
+MONITORS = ("WF", "FORM")
 ANCHORS = [("pdf.py", "GaussianPDF.sample")]
 RULE = ("cell = (full|diag density, R, D, correlation regime); structural oracle: for the same key "
         "z = jax.random.normal(key, (n,R,D)) is the key's stream; residuals x - mu_r must be an exact "
